@@ -256,6 +256,13 @@ func (session *ServerCommandSession) handleOptions(requestCtx nazahttp.HttpReqMs
 func (session *ServerCommandSession) handleAnnounce(requestCtx nazahttp.HttpReqMsgCtx) error {
 	Log.Infof("[%s] < R ANNOUNCE", session.uniqueKey)
 
+	// 一个连接上只允许存在一个PubSession或SubSession，
+	// 否则之前已经被上层持有的session会被覆盖，连接关闭时就不会再通知上层将它移除
+	if session.pubSession != nil || session.subSession != nil {
+		Log.Errorf("[%s] ANNOUNCE but session already exist.", session.uniqueKey)
+		return nazaerrors.Wrap(base.ErrRtsp)
+	}
+
 	urlCtx, err := base.ParseRtspUrl(requestCtx.Uri)
 	if err != nil {
 		Log.Errorf("[%s] parse presentation failed. uri=%s", session.uniqueKey, requestCtx.Uri)
@@ -305,6 +312,12 @@ func (session *ServerCommandSession) handleDescribe(requestCtx nazahttp.HttpReqM
 	}
 
 	session.describeSeq = requestCtx.Headers.Get(HeaderCSeq)
+
+	// 一个连接上只允许存在一个PubSession或SubSession
+	if session.pubSession != nil || session.subSession != nil {
+		Log.Errorf("[%s] DESCRIBE but session already exist.", session.uniqueKey)
+		return nazaerrors.Wrap(base.ErrRtsp)
+	}
 
 	session.subSession = NewSubSession(urlCtx, session)
 	Log.Infof("[%s] link new SubSession. [%s]", session.uniqueKey, session.subSession.UniqueKey())
